@@ -157,6 +157,12 @@ Theorem C06_other_page_terminates : forall fl mag0 pn0 mag h, 1 <= mag <= 8 -> h
 Proof. exact other_page_header_terminates. Qed.
 Print Assumptions C06_other_page_terminates.
 
+(* pages whose number has a hexadecimal digit are pages of their own (after the repair of the aliasing defect) *)
+Theorem C06_hex_pages_are_other_pages : forall tens units pn0, tens < 16 -> units < 16 -> (9 < tens \/ 9 < units) ->
+  (0 <= pn0 <= 99)%Z -> page_code tens units <> pn0.
+Proof. exact hex_page_is_other. Qed.
+Print Assumptions C06_hex_pages_are_other_pages.
+
 (* ---- totality ---- *)
 Theorem C06_total : forall page ds site, ttx_feed page ds <> Panic site.
 Proof. exact ttx_feed_no_panic. Qed.
